@@ -3,7 +3,8 @@
    polynomial stand-ins on both sides, so every value is compared exactly.
    (17 1 ty mean var x) density | (17 2 ty mean var k source) draw k samples from `source`
    -> (option-list consumed) | (17 3 ty k mean cov source (ns nf)) matrix and tensor multivariate
-   draws of k samples (mean / cov as lists of rows) | (17 4 ty data) Gaussian::approximating"""
+   draws of k >= 1 samples (mean / cov as lists of rows) | (17 5 ty mean cov source (ns nf)) the same
+   with 0 samples (known finding K1) | (17 4 ty data) Gaussian::approximating"""
 import itertools
 from tools.vlib import sx, parse_sx
 
@@ -49,6 +50,10 @@ def mat(ty, rows):
 
 
 def mv_case(ty, k, mean, cov, src, names):
+    if k == 0:
+        # 0 samples is its own op (known finding K1: the library panics there), so that shrinking
+        # a disagreement of op 3 can never end in a K1 case
+        return sx([17, 5, ty, mean, cov, src, list(names)])
     return sx([17, 3, ty, k, mean, cov, src, list(names)])
 
 
@@ -168,7 +173,7 @@ def nontrivial(case, model_out):
         return t[4] not in ([0, 1], [1, 1], 0, 1)
     if t[1] == 2:
         return t[5] >= 1
-    if t[1] == 3:
+    if t[1] in (3, 5):
         return True
     return len(t[3]) >= 2
 
